@@ -44,20 +44,57 @@ Definition get_arr (s : list Q) (P : list Z) (us ua : unit) : list Q :=
 Definition positions_of (shape : list Z) (chain : list level) : option (list Z) :=
   option_map fst (chain_on_arange shape chain).
 
+(* ------------------------------------------------------------------ the code's level-wise paths *)
+
+(* get_subarray: the levels applied one after another (OpenMDAO's own index algorithm) *)
+Definition get_through (s : list Q) (shape : list Z) (chain : list level) : option (list Q) :=
+  option_map fst (apply_chain om_index 0%Q (s, shape) chain).
+
+(* set_subarray: read the sub-arrays level by level, overwrite the innermost one, then write every
+   sub-array back into the array it was taken from (NumPy assignment through the level's positions:
+   when a level reads one entry twice the LAST alias wins).  No level: arr[:] = val. *)
+Fixpoint set_through (s : list Q) (shape : list Z) (chain : list level) (vals : list Q)
+  : option (list Q) :=
+  match chain with
+  | [] => Some vals
+  | lv :: r =>
+      match om_index shape (fst lv) (snd lv) with
+      | None => None
+      | Some q =>
+          match set_through (pick 0%Q s (fst q)) (snd q) r vals with
+          | None => None
+          | Some sub' => Some (scatterz s (fst q) sub')
+          end
+      end
+  end.
+
 (* ------------------------------------------------------------------ histories *)
 
 Inductive op :=
-| OSet (var : Z) (P : list Z) (ua us : unit) (vals : list Q)
-| OGet (var : Z) (P : list Z) (us ua : unit)
+| OSet (var : Z) (shape : list Z) (chain : list level) (ua us : unit) (vals : list Q)
+| OGet (var : Z) (shape : list Z) (chain : list level) (us ua : unit)
 | OFinal          (* final_setup *)
 | ORun.           (* run_model (sources addressed by the user are independent variables) *)
+
+Definition do_set (a : list Q) (shape : list Z) (chain : list level) (ua us : unit) (vals : list Q)
+  : list Q :=
+  match set_through a shape chain (map (conv ua us) vals) with
+  | Some a' => a'
+  | None => a
+  end.
+
+Definition do_get (a : list Q) (shape : list Z) (chain : list level) (us ua : unit) : list Q :=
+  match get_through a shape chain with
+  | Some v => map (conv us ua) v
+  | None => []
+  end.
 
 (* abstract semantics: one map, no phases *)
 Fixpoint run_abs (st : store) (h : list op) : list (list Q) :=
   match h with
   | [] => []
-  | OSet v P ua us vals :: r => run_abs (sset st v (set_arr (st v) P ua us vals)) r
-  | OGet v P us ua :: r => get_arr (st v) P us ua :: run_abs st r
+  | OSet v sh ch ua us vals :: r => run_abs (sset st v (do_set (st v) sh ch ua us vals)) r
+  | OGet v sh ch us ua :: r => do_get (st v) sh ch us ua :: run_abs st r
   | OFinal :: r => run_abs st r
   | ORun :: r => run_abs st r
   end.
@@ -70,12 +107,12 @@ Definition c_final (c : cstate) : cstate :=
 
 Definition c_step (c : cstate) (o : op) : cstate * option (list Q) :=
   match o with
-  | OSet v P ua us vals =>
+  | OSet v sh ch ua us vals =>
       if has_vectors c
-      then (mkc true (meta c) (sset (vec c) v (set_arr (vec c v) P ua us vals)), None)
-      else (mkc false (sset (meta c) v (set_arr (meta c v) P ua us vals)) (vec c), None)
-  | OGet v P us ua =>
-      (c, Some (get_arr ((if has_vectors c then vec c else meta c) v) P us ua))
+      then (mkc true (meta c) (sset (vec c) v (do_set (vec c v) sh ch ua us vals)), None)
+      else (mkc false (sset (meta c) v (do_set (meta c v) sh ch ua us vals)) (vec c), None)
+  | OGet v sh ch us ua =>
+      (c, Some (do_get ((if has_vectors c then vec c else meta c) v) sh ch us ua))
   | OFinal => (c_final c, None)
   | ORun => (c_final c, None)
   end.
@@ -93,30 +130,6 @@ Definition current (c : cstate) : store := if has_vectors c then vec c else meta
 
 (* ------------------------------------------------------------------ harness encoding *)
 
-(* an operation as the harness gives it: positions are derived from shape + chain *)
-Inductive hop :=
-| HSet (var : Z) (shape : list Z) (chain : list level) (ua us : unit) (vals : list Q)
-| HGet (var : Z) (shape : list Z) (chain : list level) (us ua : unit)
-| HFinal
-| HRun.
-
-Definition lower (o : hop) : option op :=
-  match o with
-  | HSet v sh ch ua us vals => option_map (fun P => OSet v P ua us vals) (positions_of sh ch)
-  | HGet v sh ch us ua => option_map (fun P => OGet v P us ua) (positions_of sh ch)
-  | HFinal => Some OFinal
-  | HRun => Some ORun
-  end.
-
-Fixpoint lower_all (h : list hop) : option (list op) :=
-  match h with
-  | [] => Some []
-  | o :: r => match lower o, lower_all r with
-              | Some o', Some r' => Some (o' :: r')
-              | _, _ => None
-              end
-  end.
-
 Fixpoint init_store (l : list (Z * list Q)) : store :=
   match l with
   | [] => fun _ => []
@@ -124,8 +137,5 @@ Fixpoint init_store (l : list (Z * list Q)) : store :=
   end.
 
 (* answers of all gets of the history, by the code model *)
-Definition run_case (init : list (Z * list Q)) (h : list hop) : val :=
-  match lower_all h with
-  | None => VE 1
-  | Some ops => VL (map vqs (run_code (mkc false (init_store init) (fun _ => [])) ops))
-  end.
+Definition run_case (init : list (Z * list Q)) (h : list op) : val :=
+  VL (map vqs (run_code (mkc false (init_store init) (fun _ => [])) h)).
